@@ -552,6 +552,55 @@ func ruleOneReadTransaction(c *report.Ctx) {
 		key := sk(f) + ":views"
 		if len(sites) == 1 {
 			c.OK(key, "one read transaction ("+sites[0]+")", p.Pos(f.Pos()))
+			// a read transaction that is repeated (the View sits in a loop) must build its answer afresh each time
+			for g := range reached {
+				for _, s := range calls(g, view) {
+					hdr := loopHeaderOf(s.Block())
+					if hdr == nil {
+						continue
+					}
+					mc, ok := an.CallOf(s).Args[1].(*ssa.MakeClosure)
+					if !ok {
+						continue
+					}
+					lit, _ := mc.Fn.(*ssa.Function)
+					for i, bnd := range mc.Bindings {
+						cell, isAlloc := bnd.(*ssa.Alloc)
+						if !isAlloc || lit == nil || i >= len(lit.FreeVars) {
+							continue
+						}
+						fv := lit.FreeVars[i]
+						// does the literal accumulate into the captured variable (cell = append(cell, …))?
+						acc := false
+						an.Instrs(lit, func(in ssa.Instruction) {
+							st, ok := in.(*ssa.Store)
+							if !ok || st.Addr != ssa.Value(fv) {
+								return
+							}
+							if call, ok := st.Val.(*ssa.Call); ok {
+								if b, ok := call.Call.Value.(*ssa.Builtin); ok && b.Name() == "append" {
+									acc = true
+								}
+							}
+						})
+						if !acc {
+							continue
+						}
+						reset := false
+						for _, r := range *cell.Referrers() {
+							if st, ok := r.(*ssa.Store); ok && st.Addr == ssa.Value(cell) && hdr.Dominates(st.Block()) && st.Block() != hdr && instrDominates(st, s) {
+								reset = true
+							}
+						}
+						k2 := sk(f) + ":answer-rebuilt-per-read:" + fv.Name()
+						if reset {
+							c.OK(k2, "the accumulated answer is re-initialised before every repetition of the read transaction", posOf(c, s))
+						} else {
+							c.Fail(k2, name+" repeats its read transaction in a loop but keeps appending to "+fv.Name()+", which is initialised once before the loop: when a block is committed during a scan the entries of that scan stay in the answer and the next scan's are added to them — addresses are listed twice and the total mixes two tips (a spent coin plus its own change)", posOf(c, s))
+						}
+					}
+				}
+			}
 		} else {
 			c.Fail(key, name+" reads through "+itoa(len(sites))+" read transactions ("+strings.Join(sites, ", ")+"): a block committed between them makes the answer combine the coins of one state with the tip height (confirmations, maturity) of another", p.Pos(f.Pos()))
 		}
